@@ -34,9 +34,15 @@ structure Frame where
   dst : Nat                 -- destination MAC
   etype : Nat               -- `ethernet.type`
   key : Nat                 -- the other header fields `from_packet` reads (harness: UDP source port / ARP target address)
-  full : Bool               -- match is fully specified after the wire round trip (harness: IPv4/UDP)
+  full : Bool               -- the switch ranks this frame's from_packet match as exact (`frameFull`)
   pay : Nat                 -- payload bytes no match looks at
   deriving DecidableEq, Repr
+
+/-- `Frame.full` for a real frame: `ofp_match.is_wildcarded` of the match `from_packet(packet, in_port)` builds, after the wire round trip.
+    `l4`: the frame is IPv4 TCP/UDP/ICMP (no field is ignored for lack of prerequisites, no wildcard bit is set).  `exactSig`: the tree has
+    repair D26 (`is_wildcarded` masks the bits `_unwire_wildcards` sets on ignored fields, libopenflow_01.py `ofp_match.is_wildcarded`), so
+    ARP / non-IP matches count as exact too.  Every theorem quantifies over all frames, hence over both settings. -/
+def frameFull (exactSig l4 : Bool) : Bool := l4 || exactSig
 
 /-- what `ofp_match.from_packet` keeps of a frame -/
 def Frame.hdr (x : Frame) : Frame := { x with pay := 0 }
